@@ -9,6 +9,10 @@ Tables (precedence, associativity, spelling, the equal-precedence rule, the sign
 (outer precedence, side) used at every child position) come from `Gen.FmtTables`; the lexer's symbol
 tables from `Gen.ParseTables`.
 
+After fix batch 2: a negative literal has the precedence of a prefix operation (`litPrec`, e7611e2) and an integer
+literal that is the object of a member access is printed in parentheses (`litMemParen`, 07e6b1c); the kinds and the
+precedence come from `Gen.ParseTables` (`negLiteralKinds`, `precNegLiteral`, `memParen…LiteralKinds`).
+
 Abstractions (stated in notes/C09.md): a scoped identifier `a::b` and a literal are one token each,
 named by their text / by `kind value`; float literals are modelled only on a dyadic subset where Rust's
 shortest-round-trip `Display` is the exact decimal expansion.
